@@ -55,6 +55,12 @@ func H_c16(p []int) {
 	if pf == 1 {
 		format = "x‹%v y%5s|%d"
 	}
+	if pf == 2 {
+		// a format without verbs, called without operands
+		pf = 1
+		format = "hello ‹ lit\n."
+		a = func() []interface{} { return nil }
+	}
 	vSite(fmt.Sprintf("kinds=%d,%d printf=%d wmode=%d", k1, k2, pf, wmode))
 	// route 1: Sprint / Sprintf
 	var r1 []byte
